@@ -118,6 +118,18 @@ def records():
                         choices = [vals[n] for n in names]
                         for combo in itertools.islice(itertools.product(*choices), 4):
                             out.append((t, dict(zip(names, combo))))
+    # a BIT STRING member with a DEFAULT: values that differ from the default by leading zero bits only (bit strings are
+    # not numbers), the default itself, and one of another length
+    bsd = T('SEQUENCE', [], fields=[('bs', T('BITSTRING'), ('default', '0101')), ('w', T('OCTETSTRING'), 'req')])
+    out += [(bsd, {'bs': '101', 'w': b'w'}), (bsd, {'bs': '00101', 'w': b'w'}), (bsd, {'bs': '0101', 'w': b'w'}),
+            (bsd, {'w': b'w'}), (bsd, {'bs': '1111', 'w': b''})]
+    # ... and one level down: a record member whose DEFAULT holds such a bit string (records compare member by member)
+    inner_bs = T('SEQUENCE', [], fields=[('bs', T('BITSTRING'), 'req'), ('k', T('INTEGER'), 'opt')])
+    bsd3 = T('SEQUENCE', [], fields=[('r', inner_bs, ('default', {'bs': '0101'})), ('w', T('OCTETSTRING'), 'req')])
+    out += [(bsd3, {'r': {'bs': '101'}, 'w': b'w'}), (bsd3, {'r': {'bs': '0101'}, 'w': b'w'}), (bsd3, {'w': b'w'}),
+            (bsd3, {'r': {'bs': '00101', 'k': 1}, 'w': b''})]
+    bsd2 = T('SET', [], fields=[('bs', T('BITSTRING', [('I', CTX, 1)]), ('default', '0000')), ('n', T('INTEGER'), 'opt')])
+    out += [(bsd2, {'bs': '000'}), (bsd2, {'bs': '00000', 'n': 1}), (bsd2, {})]
     # REAL members with a DEFAULT: values that only a float would take for the default (beyond 53 bits, below the
     # smallest double) are encoded; another spelling of the default itself is omitted
     big = T('SEQUENCE', [], fields=[('r', T('REAL'), ('default', (2 ** 53, 2, 0))), ('z', T('REAL', [('I', CTX, 0)]), ('default', (0, 2, 0)))])
